@@ -1708,6 +1708,56 @@ func ruleCMP6(c *Ctx) []Ob {
 			pred = cands[0]
 		}
 	}
+	// predWrapper[g] = 1 + index of the bool result of g that is true only where the predicate is
+	predWrapper := map[*ssa.Function]int{}
+	if pred != nil {
+		for _, g := range c.LibFuncs {
+			if c.pkgRel(g) != "internal" || g.Parent() != nil || g == pred {
+				continue
+			}
+			bi := -1
+			res := g.Signature.Results()
+			for k := 0; k < res.Len(); k++ {
+				if bt, ok := res.At(k).Type().Underlying().(*types.Basic); ok && bt.Kind() == types.Bool {
+					bi = k
+				}
+			}
+			if bi < 0 || res.Len() < 2 {
+				continue
+			}
+			predTrue := guardEdges(g, func(cond ssa.Value, branch bool) bool {
+				if call, ok := cond.(*ssa.Call); ok && staticCallee(call) != nil && c.declared(staticCallee(call)) == pred {
+					return branch
+				}
+				if u, ok := cond.(*ssa.UnOp); ok && u.Op == token.NOT {
+					if call, ok := u.X.(*ssa.Call); ok && staticCallee(call) != nil && c.declared(staticCallee(call)) == pred {
+						return !branch
+					}
+				}
+				return false
+			})
+			if len(predTrue) == 0 {
+				continue
+			}
+			ok := true
+			for _, ret := range returnsOf(g) {
+				rv, has := returnedValue(ret, bi)
+				if !has {
+					ok = false
+					continue
+				}
+				if cst, isC := rv.(*ssa.Const); isC && cst.Value != nil && cst.Value.Kind() == constant.Bool && !constant.BoolVal(cst.Value) {
+					continue // answers false
+				}
+				if !guardedBy(g, ret.Block(), predTrue) {
+					ok = false
+				}
+			}
+			if ok {
+				predWrapper[g] = bi + 1
+			}
+		}
+	}
 	nflat := map[*ssa.Function]int{}
 	for _, fn := range c.LibFuncs {
 		if c.pkgRel(fn) != "internal" || !writer[rootFunc(fn)] || fn == pred {
@@ -1723,8 +1773,20 @@ func ruleCMP6(c *Ctx) []Ob {
 			return false
 		}
 		isPred := func(v ssa.Value) bool {
-			call, ok := v.(*ssa.Call)
-			return ok && pred != nil && staticCallee(call) != nil && c.declared(staticCallee(call)) == pred
+			if pred == nil {
+				return false
+			}
+			if call, ok := v.(*ssa.Call); ok && staticCallee(call) != nil && c.declared(staticCallee(call)) == pred {
+				return true
+			}
+			// the boolean result of a wrapper that answers true only where the predicate does
+			// (embeddedStruct(field, value) (reflect.Value, bool))
+			if ex, ok := v.(*ssa.Extract); ok {
+				if call, ok := ex.Tuple.(*ssa.Call); ok && staticCallee(call) != nil {
+					return predWrapper[c.declared(staticCallee(call))] == ex.Index+1
+				}
+			}
+			return false
 		}
 		uses := false
 		ifEdges(fn, func(cond ssa.Value, e edge) {
@@ -1761,15 +1823,45 @@ func ruleCMP6(c *Ctx) []Ob {
 			return false
 		})
 		anonTrue := guardEdges(fn, func(cond ssa.Value, branch bool) bool { return isAnon(cond) && branch })
+		// the flattening done by recursion: the walker calls itself (or a sibling walker) on the embedded
+		// struct with the same destination map
+		allCalls(fn, func(ci ssa.CallInstruction) {
+			g := staticCallee(ci)
+			if g == nil || c.declared(g) != fn {
+				return
+			}
+			sameDst := false
+			for i, p := range fn.Params {
+				if _, isMap := p.Type().Underlying().(*types.Map); isMap && i < len(ci.Common().Args) && ci.Common().Args[i] == ssa.Value(p) {
+					sameDst = true
+				}
+			}
+			if !sameDst {
+				return
+			}
+			nflat[fn]++
+			fkey := c.fname(fn) + "/flattening by recursion"
+			if nflat[fn] > 1 {
+				fkey += fmt.Sprintf(" #%d", nflat[fn])
+			}
+			switch {
+			case pred == nil:
+				o.add(OK, fkey, relPath(c, ci.Pos()), "the fields of the embedded struct are stored into the parent")
+			case guardedBy(fn, ci.Block(), flattenOK):
+				o.add(OK, fkey, relPath(c, ci.Pos()), "the fields of an embedded field go into the parent exactly when %s, which the way back consults, says the field is flattened", c.fname(pred))
+			default:
+				o.add(VIOLATED, fkey, relPath(c, ci.Pos()), "the fields of an embedded field are stored into the parent without %s, by which the way back (Unmarshal) decides where to look for them, having been asked", c.fname(pred))
+			}
+		})
 		for _, b := range fn.Blocks {
 			for _, in := range b.Instrs {
 				mu, ok := in.(*ssa.MapUpdate)
 				if !ok {
 					continue
 				}
-				// bookkeeping maps (map[string]bool) are not the document
+				// bookkeeping maps (map[string]bool, map[string]int) are not the document, whose values are interface{}
 				if mt, ok := mu.Map.Type().Underlying().(*types.Map); ok {
-					if bt, ok := mt.Elem().Underlying().(*types.Basic); ok && bt.Kind() == types.Bool {
+					if _, isIface := mt.Elem().Underlying().(*types.Interface); !isIface {
 						continue
 					}
 				}
@@ -1832,10 +1924,136 @@ func ruleCMP6(c *Ctx) []Ob {
 					}
 					continue
 				}
+				recursive := false
+				allCalls(fn, func(ci ssa.CallInstruction) {
+					if g := staticCallee(ci); g != nil && c.declared(g) == fn {
+						recursive = true
+					}
+				})
+				if recursive {
+					// fields found at different depths share one destination: which of them takes a name is
+					// decided by a lookup of that name in a bookkeeping map (the depth at which it was taken)
+					book := guardEdges(fn, func(cond ssa.Value, branch bool) bool {
+						found := false
+						var walk func(v ssa.Value, d int)
+						walk = func(v ssa.Value, d int) {
+							if v == nil || d > 4 || found {
+								return
+							}
+							switch x := v.(type) {
+							case *ssa.Extract:
+								if lk, ok := x.Tuple.(*ssa.Lookup); ok && lk.X != mu.Map && (lk.Index == mu.Key || sameOrigin(lk.Index, mu.Key)) {
+									found = true
+								}
+							case *ssa.Lookup:
+								if x.X != mu.Map && (x.Index == mu.Key || sameOrigin(x.Index, mu.Key)) {
+									found = true
+								}
+							case *ssa.BinOp:
+								walk(x.X, d+1)
+								walk(x.Y, d+1)
+							case *ssa.UnOp:
+								walk(x.X, d+1)
+							case *ssa.Phi:
+								for _, e := range x.Edges {
+									walk(e, d+1)
+								}
+							}
+						}
+						walk(cond, 0)
+						return found
+					})
+					hkey := c.fname(fn) + "/a name is taken by the shallowest field"
+					if guardedBy(fn, b, book) {
+						o.add(OK, hkey, relPath(c, mu.Pos()), "whether a field is stored under a name is decided by a lookup of that name in the record of the depths at which names were taken")
+					} else {
+						o.add(VIOLATED, hkey, relPath(c, mu.Pos()), "fields found at different depths of embedding are stored into one map without a record of which depth took a name: a field promoted from a deeper struct replaces a shallower one (or the struct's own) depending on declaration order, contrary to Go's and encoding/json's rule")
+					}
+				}
 				if guardedBy(fn, b, allowed) {
 					o.add(OK, key, relPath(c, mu.Pos()), "reached only for a non-embedded field, an embedded field that is not an object, or one the reader's predicate does not flatten")
 				} else {
 					o.add(VIOLATED, key, relPath(c, mu.Pos()), "a field can be stored under its own name although it is embedded and normalises to an object (the path is not decided by Anonymous and map-ness alone): embedded structs reached through a pointer / of some kinds are no longer flattened, and Unmarshal (encoding/json flattens them) no longer round-trips")
+				}
+			}
+		}
+	}
+	// the way back: a walker that follows embedded types and writes the names encoding/json expects into
+	// one map shared by all depths must keep the same record
+	if conv := c.lookupFunc("internal", "Convert"); conv != nil {
+		var rfns []*ssa.Function
+		for f := range c.staticReach(conv) {
+			if c.pkgRel(f) == "internal" && f.Parent() == nil && !writer[f] {
+				rfns = append(rfns, f)
+			}
+		}
+		sort.Slice(rfns, func(i, j int) bool { return c.fname(rfns[i]) < c.fname(rfns[j]) })
+		for _, fn := range rfns {
+			var dst *ssa.Parameter
+			allCalls(fn, func(ci ssa.CallInstruction) {
+				if g := staticCallee(ci); g == nil || c.declared(g) != fn {
+					return
+				}
+				typeDriven := false
+				for i, p := range fn.Params {
+					if i < len(ci.Common().Args) && namedIs(p.Type(), "reflect", "Type") && ci.Common().Args[i] != ssa.Value(p) {
+						typeDriven = true
+					}
+				}
+				if !typeDriven {
+					return
+				}
+				for i, p := range fn.Params {
+					if mt, isMap := p.Type().Underlying().(*types.Map); isMap && i < len(ci.Common().Args) && ci.Common().Args[i] == ssa.Value(p) {
+						if _, isIface := mt.Elem().Underlying().(*types.Interface); isIface {
+							dst = p
+						}
+					}
+				}
+			})
+			if dst == nil {
+				continue
+			}
+			k := 0
+			for _, b := range fn.Blocks {
+				for _, in := range b.Instrs {
+					mu, ok := in.(*ssa.MapUpdate)
+					if !ok || mu.Map != ssa.Value(dst) {
+						continue
+					}
+					k++
+					hkey := fmt.Sprintf("%s/a name is taken by the shallowest field #%d", c.fname(fn), k)
+					book := guardEdges(fn, func(cond ssa.Value, branch bool) bool {
+						found := false
+						var walk func(v ssa.Value, d int)
+						walk = func(v ssa.Value, d int) {
+							if v == nil || d > 4 || found {
+								return
+							}
+							switch x := v.(type) {
+							case *ssa.Extract:
+								if lk, ok := x.Tuple.(*ssa.Lookup); ok && lk.X != mu.Map && (lk.Index == mu.Key || sameOrigin(lk.Index, mu.Key)) {
+									found = true
+								}
+							case *ssa.Lookup:
+								if x.X != mu.Map && (x.Index == mu.Key || sameOrigin(x.Index, mu.Key)) {
+									found = true
+								}
+							case *ssa.BinOp:
+								walk(x.X, d+1)
+								walk(x.Y, d+1)
+							case *ssa.UnOp:
+								walk(x.X, d+1)
+							}
+						}
+						walk(cond, 0)
+						return found
+					})
+					if guardedBy(fn, b, book) {
+						o.add(OK, hkey, relPath(c, mu.Pos()), "on the way back too, which field a name expected by encoding/json is taken for is decided by a lookup in the record of depths")
+					} else {
+						o.add(VIOLATED, hkey, relPath(c, mu.Pos()), "the rename-back walk writes the names encoding/json expects for fields of every depth of embedding into one map without a record of depths: with struct{ ID string `clover:\"id\"`; Base } where Base has ID, the promoted field, visited later, overwrites the entry of the struct's own field, and Unmarshal returns ID = \"\"")
+					}
 				}
 			}
 		}
@@ -2950,4 +3168,141 @@ func ruleCMP12(c *Ctx) []Ob {
 		}
 	}
 	return softenUndecided(o.list)
+}
+
+// ---------------------------------------------------------------- CMP13 / DET1
+
+// CMP13: pointers are followed to nil or a value "of any depth": the loop of the
+// normaliser that dereferences (it calls (reflect.Value).Elem while the kind is Ptr)
+// also goes through interface values, which is what a pointer to an interface{}
+// variable points to: otherwise &x with x = interface{}(5) is refused as an
+// "invalid dtype" (and silently dropped by Document.Set), while the same pointer is
+// accepted when the interface holds a time.
+func ruleCMP13(c *Ctx) []Ob {
+	o := newObs(c, "CMP13")
+	norm := c.lookupFunc("internal", "Normalize")
+	if norm == nil {
+		o.add(UNDECIDED, "Normalize", "-", "internal.Normalize not found")
+		return softenUndecided(o.list)
+	}
+	ptrK, ok1 := c.reflectKind("Ptr")
+	ifaceK, ok2 := c.reflectKind("Interface")
+	if !ok1 || !ok2 {
+		o.add(UNDECIDED, "reflect", "-", "reflect.Ptr / reflect.Interface not found")
+		return softenUndecided(o.list)
+	}
+	n := 0
+	var fns []*ssa.Function
+	for f := range c.staticReach(norm) {
+		if c.pkgRel(f) == "internal" {
+			fns = append(fns, f)
+		}
+	}
+	sort.Slice(fns, func(i, j int) bool { return c.fname(fns[i]) < c.fname(fns[j]) })
+	for _, fn := range fns {
+		// only where the value walked is of unknown dynamic type: reflect.ValueOf of an interface{} parameter
+		// (the field of a struct type whose static type is a chain of pointers to a struct cannot hold an interface)
+		fromAny := false
+		allCalls(fn, func(ci ssa.CallInstruction) {
+			if calleeFullName(ci) != "reflect.ValueOf" || len(ci.Common().Args) != 1 {
+				return
+			}
+			for _, og := range origins(ci.Common().Args[0]) {
+				if p, ok := og.(*ssa.Parameter); ok {
+					if _, isI := p.Type().Underlying().(*types.Interface); isI {
+						fromAny = true
+					}
+				}
+			}
+		})
+		if !fromAny {
+			continue
+		}
+		li := c.loops(fn)
+		for h, body := range li.loops {
+			derefs := false
+			kinds := map[int64]bool{}
+			for b := range body {
+				for _, in := range b.Instrs {
+					if call, ok := in.(*ssa.Call); ok && calleeFullName(call) == "(reflect.Value).Elem" {
+						derefs = true
+					}
+					if bo, ok := in.(*ssa.BinOp); ok && (bo.Op == token.EQL || bo.Op == token.NEQ) && namedIs(bo.X.Type(), "reflect", "Kind") {
+						if k, isK := constInt(bo.Y); isK {
+							kinds[k] = true
+						}
+					}
+				}
+			}
+			if !derefs || !kinds[ptrK] {
+				continue
+			}
+			n++
+			key := c.fname(fn) + "/the dereferencing loop goes through interfaces"
+			pos := relPath(c, h.Instrs[0].Pos())
+			if pos == "-" {
+				pos = relPath(c, fn.Pos())
+			}
+			if kinds[ifaceK] {
+				o.add(OK, key, pos, "the loop continues on kind Ptr and on kind Interface")
+			} else {
+				o.add(VIOLATED, key, pos, "the loop that follows pointers stops at a value of kind Interface: a pointer to an interface{} variable (&x with x = interface{}(5)) ends on the interface, which the kind dispatch rejects as \"invalid dtype\" - Document.Set then drops the value silently and NewDocumentOf returns nil for a struct with a *interface{} field")
+			}
+		}
+	}
+	if n == 0 {
+		o.add(INFO, "dereferencing loop", "-", "no loop calling (reflect.Value).Elem on kind Ptr in what Normalize reaches")
+	}
+	return o.list
+}
+
+// DET1: the document API is deterministic: no function of package document applies
+// Set (or another mutator of the document) once per entry of a map in the map's own
+// iteration order. Names given together can overlap ("a" and "a.b": the first replaces
+// the object the second writes into), so the outcome would depend on Go's randomised
+// map order - the same Update giving different stored documents on different runs.
+func ruleDET1(c *Ctx) []Ob {
+	o := newObs(c, "DET1")
+	setM := c.lookupMethod("document", "Document", "Set")
+	n := 0
+	for _, fn := range c.LibFuncs {
+		if c.pkgRel(fn) != "document" {
+			continue
+		}
+		k := 0
+		allCalls(fn, func(ci ssa.CallInstruction) {
+			g := staticCallee(ci)
+			if g == nil || setM == nil || c.declared(g) != setM || !c.inLoop(ci.Block()) {
+				return
+			}
+			h, body := c.innermostLoop(ci.Block())
+			if h == nil {
+				return
+			}
+			n++
+			k++
+			key := fmt.Sprintf("%s/Set applied in a loop #%d", c.fname(fn), k)
+			overMap := false
+			for b := range body {
+				for _, in := range b.Instrs {
+					if nx, ok := in.(*ssa.Next); ok && !nx.IsString {
+						if rg, ok := nx.Iter.(*ssa.Range); ok {
+							if _, isMap := rg.X.Type().Underlying().(*types.Map); isMap {
+								overMap = true
+							}
+						}
+					}
+				}
+			}
+			if overMap {
+				o.add(VIOLATED, key, relPath(c, ci.Pos()), "Document.Set is applied once per entry of a map in the map's iteration order: with names that overlap ({\"a\": {\"c\": 1}, \"a.b\": 2}) the result depends on which comes first, and Go randomises that order - the same SetAll / Update stores different documents on different runs")
+			} else {
+				o.add(OK, key, relPath(c, ci.Pos()), "the loop runs over a slice (an ordered list of names), not over a map")
+			}
+		})
+	}
+	if n == 0 {
+		o.add(OK, "Set in loops", "-", "package document applies Set in no loop")
+	}
+	return o.list
 }
